@@ -66,6 +66,9 @@ FAM = {
     "am1_uhf_pulay": {"method": "AM1", "scf_eps": 1e-7, "scf_converger": [2], "UHF": True},
     # PM6 with d-shell elements (S, Cl): process-global caches of d-orbital terms are in play
     "pm6_d": {"method": "PM6", "scf_eps": 1e-8, "scf_converger": [0, 0.2]},
+    # single-precision callers (default dtype float32 for the duration of their call)
+    "am1_f32": {"method": "AM1", "scf_eps": 1e-4, "scf_converger": [1]},
+    "pm3_f32": {"method": "PM3", "scf_eps": 1e-4, "scf_converger": [0, 0.2]},
     "pm6_d_learned": {"method": "PM6", "scf_eps": 1e-8, "scf_converger": [0, 0.2], "learned": ["zeta_d"]},
 }
 
@@ -113,12 +116,15 @@ JOBS = {
     "sp_pm6_hscl": dict(fam="pm6_d", mol="hscl", kind="sp"),
     "sp_pm6_h2s": dict(fam="pm6_d", mol="h2s", kind="sp"),
     "sp_pm6_hscl_learned": dict(fam="pm6_d_learned", mol="hscl", kind="sp", learned={"zeta_d": [1.45, 1.60, 0.0]}),
+    "sp32_am1_ch4": dict(fam="am1_f32", mol="ch4", kind="sp", dtype="float32"),
+    "sp32_pm3_mix": dict(fam="pm3_f32", mol="mix", kind="sp", dtype="float32"),
     "fail_pm6_float32": dict(fam="pm6_d", mol="hscl", kind="sp", dtype="float32", expect_fail=True),
     "fail_odd_rhf": dict(fam="am1", mol="ch3", kind="sp", nomult=True, expect_fail=True),
     "fail_unsorted": dict(fam="am1", mol="h2o", kind="sp", unsorted=True, expect_fail=True),
     "fail_uhf_pulay": dict(fam="am1_uhf_pulay", mol="ch3", kind="sp", expect_fail=True),
     "fail_active_no_exc": dict(fam="am1_bad_active", mol="h2o", kind="sp", expect_fail=True),
 }
+F32_JOBS = [j for j, v in JOBS.items() if v.get("dtype") == "float32" and not v.get("expect_fail")]
 GRAD_JOBS = [j for j, v in JOBS.items() if v["kind"] == "grad"]
 MD_JOBS = [j for j, v in JOBS.items() if v["kind"] in ("md", "opt")]
 
@@ -423,6 +429,10 @@ def gen_history(rng):
             if rng.random() < 0.15:
                 k += 1
                 ops.append({"op": "run", "job": j, "id": f"j{k}", "reuse": {"const": True, "dict": True, "driver": rng.random() < 0.5}})
+    if rng.random() < 0.12:
+        # the very first calculation of the process is a single-precision one (anything captured on first use
+        # under the float32 default dtype would leak into the float64 jobs that follow)
+        ops.insert(0, {"op": "run", "job": rng.choice(F32_JOBS), "id": "f32first", "reuse": {"const": False, "dict": False, "driver": False}})
     threads = 1
     if rng.random() < 0.12:
         # thread-count stratum: short histories of cheap jobs only (tiny tensors on many threads are
